@@ -530,7 +530,7 @@ func TestC17(t *testing.T) {
 		// every reflected key path: its control document parses (C16) and must validate
 		n := 0
 		for _, kp := range configKeyPaths() {
-			doc := docWith(kp.Segs, sampleValue(kp.Type))
+			doc := docWith(kp.Segs, kp.sample())
 			b, _ := yaml.Marshal(doc)
 			if _, err := parseText(string(b), noEnv); err != nil {
 				continue
